@@ -867,6 +867,14 @@ func (e *Env) call(c *ECall) TV {
 		return TV{UF(SI, "parsefloat.val", e.toTerm(e.eval(c.Args[0]))), types.Typ[types.Float64]}
 	case "parsefloatok":
 		return TV{Eq(UF(SI, "parsefloat.err", e.toTerm(e.eval(c.Args[0]))), TInt(0)), boolT}
+	case "parseuint":
+		return TV{UF(SI, "parseuint.val", e.toTerm(e.eval(c.Args[0])), e.intTerm(c.Args[1]), e.intTerm(c.Args[2])), types.Typ[types.Uint64]}
+	case "parseuintok":
+		return TV{Eq(UF(SI, "parseuint.err", e.toTerm(e.eval(c.Args[0])), e.intTerm(c.Args[1]), e.intTerm(c.Args[2])), TInt(0)), boolT}
+	case "parseduration":
+		return TV{UF(SI, "parseduration.val", e.toTerm(e.eval(c.Args[0]))), types.Typ[types.Int64]}
+	case "parsedurationok":
+		return TV{Eq(UF(SI, "parseduration.err", e.toTerm(e.eval(c.Args[0]))), TInt(0)), boolT}
 	case "parseint":
 		return TV{UF(SI, "parseint.val", e.toTerm(e.eval(c.Args[0])), e.intTerm(c.Args[1]), e.intTerm(c.Args[2])), types.Typ[types.Int64]}
 	case "parseintok":
